@@ -14,12 +14,13 @@ class TableError(Exception):
 
 
 class Tok:
-    __slots__ = ("kind", "text", "line")
+    __slots__ = ("kind", "text", "line", "pos")
 
-    def __init__(self, kind, text, line):
+    def __init__(self, kind, text, line, pos=-1):
         self.kind = kind      # 'id' 'num' 'str' 'chr' 'punct'
         self.text = text
         self.line = line
+        self.pos = pos        # offset in the line-spliced text (adjacency test for macros)
 
     def __repr__(self):
         return "%s:%r@%d" % (self.kind, self.text, self.line)
@@ -110,26 +111,26 @@ def tokenize(text):
                 k += 1
             if k >= n:
                 raise TableError("unterminated literal at line %d" % ln)
-            cur.append(Tok("str" if q == '"' else "chr", s[i:k + 1], ln))
+            cur.append(Tok("str" if q == '"' else "chr", s[i:k + 1], ln, i))
             i = k + 1
             continue
         m = _ID.match(s, i)
         if m:
-            cur.append(Tok("id", m.group(0), ln))
+            cur.append(Tok("id", m.group(0), ln, i))
             i = m.end()
             continue
         m = _NUM.match(s, i)
         if m:
-            cur.append(Tok("num", m.group(0), ln))
+            cur.append(Tok("num", m.group(0), ln, i))
             i = m.end()
             continue
         for p in PUNCT:
             if s.startswith(p, i):
-                cur.append(Tok("punct", p, ln))
+                cur.append(Tok("punct", p, ln, i))
                 i += len(p)
                 break
         else:
-            cur.append(Tok("punct", c, ln))
+            cur.append(Tok("punct", c, ln, i))
             i += 1
     return toks, directives
 
@@ -215,9 +216,8 @@ def macros(directives):
     for d in directives:
         if len(d) >= 2 and d[0].text == "define" and d[1].kind == "id":
             name = d[1].text
-            # function-like iff '(' follows immediately; the tokenizer drops spacing, so accept
-            # "( id, id )" shapes only when every element is an identifier list
-            if len(d) > 2 and d[2].text == "(":
+            # function-like iff '(' follows the name immediately (no white space)
+            if len(d) > 2 and d[2].text == "(" and d[2].pos == d[1].pos + len(d[1].text):
                 try:
                     j = match_close(d, 2)
                 except TableError:
@@ -365,3 +365,20 @@ def c_string(tok, what="string"):
 
 def lean_str(s):
     return '"' + s.replace("\\", "\\\\").replace('"', '\\"').replace("\n", "\\n").replace("\t", "\\t") + '"'
+
+
+def write_if_changed(path, text):
+    """Write `text` to `path` only when the content differs (keeps lake's mtime-based rebuilds quiet)."""
+    import os
+    old = None
+    if os.path.exists(path):
+        with open(path, encoding="utf-8") as f:
+            old = f.read()
+    if old != text:
+        os.makedirs(os.path.dirname(path), exist_ok=True)
+        tmp = path + ".tmp%d" % os.getpid()
+        with open(tmp, "w", encoding="utf-8") as f:
+            f.write(text)
+        os.replace(tmp, path)
+        return True
+    return False
